@@ -601,6 +601,21 @@ impl Check for C11 {
         "C11"
     }
 
+    fn declared_probes(&self) -> Vec<&'static str> {
+        vec![
+            "fault.adversarial-stream-words",
+            "probe.empty-parent",
+            "probe.one-over-length-with-length-1",
+            "probe.plushy-parent-starts-with-close",
+            "probe.plushy-parent-with-close-markers",
+            "probe.rate-0",
+            "probe.rate>=1",
+            "probe.umad-addition-1-deletion-0",
+            "probe.umad-deletion-1",
+            "probe.umad-rate-0",
+        ]
+    }
+
     fn rule(&self) -> String {
         "seeded single mutations: WithRate / WithOneOverLength on Vec<tagged>, Vector<tagged>, Vec<bool>, Bitstring; Umad (3 constructors) on \
          Vector<u32> and Plushy with a logging probe gene generator (disjoint alphabet); lengths 0-12; rates from {0, 2^-24, 0.1, 0.5, 0.9, \
